@@ -88,6 +88,11 @@ func scanProps(prop string) ([]string, error) {
 				}
 			}
 		}
+		for _, t := range pc.Tables {
+			if hasProp(t.Props, prop) {
+				has = true
+			}
+		}
 		if has {
 			rel, _ := filepath.Rel(repoDir, pc.Dir)
 			dirs = append(dirs, rel)
@@ -239,6 +244,29 @@ func checkCmd(args []string) {
 			}
 		}
 	}
+	// table invariants (exhaustive concrete evaluation of the spec function on every instance)
+	var tables []*TableResult
+	for ip, pc := range P.pcs {
+		for _, t := range pc.Tables {
+			if !hasProp(t.Props, prop) {
+				continue
+			}
+			tr := P.checkTable(ip, pc, t)
+			tables = append(tables, tr)
+			name := fmt.Sprintf("%s.table.%s", P.pkgs[ip].Types.Name(), t.Spec)
+			switch {
+			case tr.Err != "":
+				all = append(all, &Result{Name: name, Class: "table-invariant", Func: name, Status: "error", Output: tr.Err, Construct: t.Spec + " over " + t.Type})
+			case tr.Instances == 0:
+				all = append(all, &Result{Name: name, Class: "table-invariant", Func: name, Status: "error", Output: "no instance of " + t.Type + " found (vacuous)", Construct: t.Spec + " over " + t.Type})
+			case len(tr.Failing) > 0:
+				all = append(all, &Result{Name: name, Class: "table-invariant", Func: name, Status: "error", Output: "invariant false on: " + strings.Join(tr.Failing, ", "), Construct: t.Spec + " over " + t.Type})
+			case strings.HasPrefix(tr.ClosedWorld, "VIOLATED"):
+				all = append(all, &Result{Name: name + "#closed-world", Class: "table-invariant", Func: name, Status: "error", Output: tr.ClosedWorld, Construct: t.Spec + " over " + t.Type})
+			}
+			assumptions[fmt.Sprintf("table invariant %s holds on every %s: checked by exhaustive evaluation on %d instances (compiled spec function, not SMT)", t.Spec, t.Type, tr.Instances)] = true
+		}
+	}
 	var solve []*Result
 	for _, r := range all {
 		if r.Script != "" {
@@ -329,6 +357,7 @@ func checkCmd(args []string) {
 		"vacuity":                  map[string]interface{}{"cover_queries": len(vcs), "contradictory": vacuous},
 		"two_solver_agreement":     tier == "thorough",
 		"marker_strip_identical":   P.markerOK,
+		"table_invariants":         tables,
 	}
 	ev := Evidence{PropertyID: prop, Tier: tier, Seed: seed, Level: "proof", Coverage: cov, Assumptions: as,
 		WallS: time.Since(t0).Seconds(), Violations: violations}
